@@ -4,6 +4,8 @@
 package tcp
 
 import (
+	"time"
+
 	tcpip "github.com/brewlin/net-protocol/protocol"
 )
 
@@ -24,21 +26,25 @@ type VerifSnapshot struct {
 	FRActive    bool
 	RTOms       int64
 	ResendArmed bool
-	KeepArmed   bool
-	SndClosed   bool // write side shut down by the application
-	SndBufUsed  int
-	SndQueued   int // bytes accepted by Write and not yet handed to the sender
-	Unsent      bool
-	RcvNxt      uint32
-	RcvAcc      uint32
-	RcvWndScale int
-	RcvClosed   bool
-	RcvBufUsed  int
-	RcvBufSize  int
-	Pending     int // out-of-order segments parked
-	SegQueue    bool
-	MaxPayload  int
-	Worker      bool
+	// ResendOverdueMs: while the retransmission timer is armed, how long ago its
+	// deadline passed (negative: still in the future). An armed timer whose
+	// deadline passed long ago with the protocol goroutine idle will never fire.
+	ResendOverdueMs int64
+	KeepArmed       bool
+	SndClosed       bool // write side shut down by the application
+	SndBufUsed      int
+	SndQueued       int // bytes accepted by Write and not yet handed to the sender
+	Unsent          bool
+	RcvNxt          uint32
+	RcvAcc          uint32
+	RcvWndScale     int
+	RcvClosed       bool
+	RcvBufUsed      int
+	RcvBufSize      int
+	Pending         int // out-of-order segments parked
+	SegQueue        bool
+	MaxPayload      int
+	Worker          bool
 }
 
 // VerifState returns a snapshot of ep if its protocol goroutine is idle or has
@@ -86,6 +92,9 @@ func VerifState(ep tcpip.Endpoint) (snap VerifSnapshot, ok bool) {
 		snap.FRActive = s.fr.active
 		snap.RTOms = int64(s.rto / 1e6)
 		snap.ResendArmed = s.resendTimer.enabled()
+		if snap.ResendArmed {
+			snap.ResendOverdueMs = int64(time.Since(s.resendTimer.target) / time.Millisecond)
+		}
 		snap.Unsent = s.writeNext != nil
 		snap.MaxPayload = s.maxPayloadSize
 	}
